@@ -78,8 +78,12 @@ class LocalDirectoryContext(Context):
     def _init_log(self):
         log_path = self._log_path
         if not log_path.is_file():
-            with open(log_path, 'w') as fh:
+            # NOTE: Create the log atomically. An interruption must not leave a
+            # log without (or with half of) its header.
+            tmp_path = log_path.with_name(log_path.name + '.tmp')
+            with open(tmp_path, 'w') as fh:
                 fh.write("path,time,severity,message\n")
+            os.replace(tmp_path, log_path)
 
     def _store_common_options(self, common_options):
         if common_options is None:
